@@ -90,7 +90,7 @@ Definition agg_apply (a : agg) (vs : list val) : val :=
 
 (* ---------- transforms ---------- *)
 Inductive frame := FNone | FRows (a b : option Z) | FRange (a b : option Z).
-Inductive side := Inner | LeftJ.
+Inductive side := Inner | LeftJ | RightJ | FullJ.
 
 Inductive transform :=
 | TSelect (cols : list (option name * expr))
@@ -108,7 +108,10 @@ Inductive transform :=
 | TDistinct
 | TWinF (fr : frame) (keys : list (bool * expr)) (cols : list (option name * wfn * expr))
 | TGroupWinF (by_ : list name) (fr : frame) (keys : list (bool * expr)) (cols : list (option name * wfn * expr))
-| TExclude (cs : list (option name * name)).   (* select !{...}: every column except the listed ones *)
+| TExclude (cs : list (option name * name))   (* select !{...}: every column except the listed ones *)
+(* right / full join: like TJoin, plus the unmatched right rows (left columns NULL) after the left-driven
+   rows; lcols = qualifier and name of the left frame's columns (needed when the left input is empty) *)
+| TJoinX (s : side) (alias : name) (lcols : list (option name * option name)) (ucols : list name) (tbl : rel) (on : expr).
 
 Definition take_range (s e : option Z) {A} (l : list A) : list A :=
   let off := match s with Some s => Z.to_nat (s - 1) | None => O end in
@@ -270,6 +273,20 @@ Definition apply (t : transform) (l : rel) : rel :=
         | [], LeftJ => [r ++ map (fun n => (Some alias, Some n, VNull)) ucols]
         | _, _ => ms
         end) l
+  | TJoinX s alias lcols ucols tbl on =>
+      let left_part :=
+        flat_map (fun r =>
+          let ms := filter (fun rr => is_true (ev rr on)) (map (fun u => r ++ requalify alias u) tbl) in
+          match ms, s with
+          | [], LeftJ | [], FullJ => [r ++ map (fun n => (Some alias, Some n, VNull)) ucols]
+          | _, _ => ms
+          end) l in
+      let unmatched :=
+        match s with
+        | RightJ | FullJ => filter (fun u => negb (existsb (fun r => is_true (ev (r ++ requalify alias u) on)) l)) tbl
+        | _ => []
+        end in
+      left_part ++ map (fun u => map (fun qn : option name * option name => (fst qn, snd qn, VNull)) lcols ++ requalify alias u) unmatched
   | TAppend bottom => l ++ bottom
   | TDistinct => dedup (S (length l)) l
   | TWinF fr keys cols => win_colsf fr keys cols l
